@@ -220,6 +220,15 @@ def h_value(v: str, pos: int) -> bool:
     exp = {0: [], 1: [], 2: [], 3: []}
     exp[kind].append(v)
     exp[0].append("Z=1")
+    if kind == 0:
+        # the later -DZ=1 overrides an earlier definition of the same macro (name = text before the first '=' or '(')
+        nm = v
+        for stop in ("=", "("):
+            k = nm.find(stop)
+            if k >= 0:
+                nm = nm[:k]
+        if nm == "Z":
+            exp[0] = ["Z=1"]
     STATS["compared"] += 1
     if P.get("_twin"):
         return False
